@@ -31,7 +31,8 @@ from typhon.files import utils as tfu                   # noqa: E402
 PROP = "C12"
 LEVEL = "fault_enumeration"
 RULE = ("histories = {suffix, fmt=} x {gz,bz2,zip,xz} x names (several dots, "
-        "dotted directory, no/unknown suffix; thorough: spaces, non-ASCII, "
+        "dotted directory, no/unknown suffix, format names in upper/mixed "
+        "case; thorough: spaces, non-ASCII, "
         "double suffixes) x contents (empty, 1 byte, 70 kB text, 70 kB "
         "pseudo-random, zlib blob; thorough: 8 KiB and 64 KiB +-1, and one "
         "100 MiB + 1 byte content for gz, zip and xz) x tmpdir {default, "
@@ -135,6 +136,9 @@ def names(tier, via, fmt):
             out += [("a.b.c.%s" % fmt, fmt), ("with space", None)]
         return out
     out = ["plain", "data.dat", "dir.with.dots/noext", "a.gz.txt", "gz"]
+    # suffixes that equal a format name but for letter case: both functions
+    # have to agree that these are not compression suffixes
+    out += ["GRANULE.%s" % f.upper() for f in FORMATS] + ["scene.Zip"]
     if tier == "thorough":
         out += ["with space.txt", "archive.gzip", "a.xzz", "zip.d/bz2"]
     return [(n, None) for n in out]
